@@ -32,8 +32,12 @@ RECURSIVE T(_)
 T(n) == IF n = 1 THEN {A, Not(A)}
         ELSE UNION {{Bin(op, l, r) : op \in {"and", "or"}, l \in T(j), r \in T(n - j)} \cup
                     {Not(Bin(op, l, r)) : op \in {"and", "or"}, l \in T(j), r \in T(n - j)} : j \in 1..(n - 1)}
+\* the trees without `not`: at the quick bound (three leaves) the four-leaf ones are added, so that a group of one connective
+\* sits in the middle of a chain of the other (a and (b or c) and d, a or (b and c) or d, ...)
+RECURSIVE PT(_)
+PT(n) == IF n = 1 THEN {A} ELSE UNION {{Bin(op, l, r) : op \in {"and", "or"}, l \in PT(j), r \in PT(n - j)} : j \in 1..(n - 1)}
 \* (plus double negations on top of one- to three-leaf trees)
-Trees == UNION {T(n) : n \in 1..MaxLeaves} \cup {Not(Not(u)) : u \in UNION {T(n) : n \in 1..(IF MaxLeaves > 3 THEN 3 ELSE MaxLeaves)}}
+Trees == UNION {T(n) : n \in 1..MaxLeaves} \cup (IF MaxLeaves = 3 THEN PT(4) ELSE {}) \cup {Not(Not(u)) : u \in UNION {T(n) : n \in 1..(IF MaxLeaves > 3 THEN 3 ELSE MaxLeaves)}}
 
 RECURSIVE Leaves(_)
 Leaves(t) == CASE t.k = "atom" -> 1 [] t.k = "not" -> Leaves(t.e) [] OTHER -> Leaves(t.l) + Leaves(t.r)
